@@ -47,10 +47,12 @@ class CrashPlan(Monitor):
                 t.crash_after = self.p0 + self.k
 
     def after_user(self, sim, rec):
-        if self.crashed and rec.get("ok"):
-            self.later_user.append(rec["path"])
-            if rec.get("to"):
-                self.later_user.append(rec["to"])
+        if rec.get("ok"):
+            self.later_user.append([rec["path"]] + ([rec["to"]] if rec.get("to") else []))
+
+    def at_quiescence(self, sim, final):
+        if not self.crashed:
+            self.later_user = []        # a new window starts: earlier operations are fully synchronised
 
     def k17(self, sim_crash_site=None):
         """Finding K17 (call-site predicate): the crash fell inside a storage_commit() that had already written at
@@ -58,12 +60,16 @@ class CrashPlan(Monitor):
         return self.torn
 
     def k16(self):
-        """Finding K16 (input predicate): the step that died had issued a provider write for an object that a user
-        touches again after the crash (before the restarted engine can have caught up)."""
+        """Finding K16 (input predicate): the object written by the step that died has, besides the user operation being
+        propagated, a second user operation in the same window or after the crash (so the engine's own half-recorded
+        write meets a further change before the restarted engine can have caught up)."""
         for p in self.inflight:
-            for q in self.later_user:
-                if p == q or p.startswith(q + "/") or q.startswith(p + "/"):
-                    return True
+            n = 0
+            for paths in self.later_user:
+                if any(p == q or p.startswith(q + "/") or q.startswith(p + "/") for q in paths):
+                    n += 1
+            if n >= 2:
+                return True
         return False
 
     def at_crash(self, sim):
